@@ -491,3 +491,117 @@ pub fn c10_numeric(m: &mut EM, rng: &mut Rng, thorough: bool) {
         }
     }
 }
+
+// ------------------------------------------------------------------ C07
+
+pub const DYN: [TimeScale; 2] = [TimeScale::ET, TimeScale::TDB];
+pub const UNIF: [TimeScale; 6] = [TimeScale::TAI, TimeScale::TT, TimeScale::GPST, TimeScale::GST, TimeScale::BDT, TimeScale::QZSST];
+
+impl<'a> EM<'a> {
+    pub fn round_trip(&mut self, via: TimeScale) {
+        let a = self.e;
+        let r = catch(|| a.to_time_scale(via).to_time_scale(a.time_scale));
+        self.rec.ev("round_trip", format!("\"via\":{},\"res\":{}", ts_idx(via), jres_epoch(&r)), true);
+    }
+}
+
+pub fn c07(rec: &mut Rec, lm: &Landmarks, rng: &mut Rng, thorough: bool) {
+    let _ = lm;
+    let mut m = EM::new(rec);
+    let span = 100 * NPC as i128; // +/- 10 000 years
+    let year = 31_558_432i128 * NS_S as i128; // anomalistic year, about
+    // dense over one anomalistic year around J2000 (every 6 h; quick: every 2 days), from every uniform scale
+    let step = if thorough { 6 * 3_600 } else { 48 * 3_600 } * NS_S as i128;
+    let mut t = 0i128;
+    let mut k = 0usize;
+    while t < year {
+        k += 1;
+        let src = UNIF[k % 6];
+        let off: i128 = match src {
+            TimeScale::GPST | TimeScale::QZSST => 2_524_953_619,
+            TimeScale::GST => 3_144_268_819,
+            TimeScale::BDT => 3_345_062_433,
+            _ => 0,
+        };
+        // around J2000 on the TAI axis
+        let v = 3_155_716_800i128 * NS_S as i128 + t - off * NS_S as i128;
+        for dy in DYN {
+            m.eload_dur(src, ns_dur(v));
+            m.to_scale(dy);
+            m.to_scale(src);
+            m.eload_dur(src, ns_dur(v));
+            m.round_trip(dy);
+        }
+        t += step;
+    }
+    // every phase quadrant at the extremes of the range, and spread over it
+    let mut centres: Vec<i128> = vec![-span, -span / 2, -(NPC as i128), 0, NPC as i128, span / 2, span - year];
+    for _ in 0..(if thorough { 400 } else { 30 }) {
+        centres.push((rng.i128().rem_euclid(2 * span)) - span);
+    }
+    for c in centres {
+        for q in 0..8i128 {
+            let v = c + q * year / 8 + rng.below(86_400) as i128 * NS_S as i128 + rng.below(NS_S) as i128;
+            let src = UNIF[(q as usize) % 6];
+            for dy in DYN {
+                // v is a count in the dynamical scale (past J2000): both directions
+                m.eload_dur(dy, ns_dur(v));
+                m.to_scale(src);
+                m.to_scale(dy);
+                m.eload_dur(dy, ns_dur(v));
+                m.to_dur(TimeScale::TAI, 1);
+                m.eload_dur(src, ns_dur(v + 3_155_716_800i128 * NS_S as i128));
+                m.to_dur(dy, 1);
+                m.round_trip(dy);
+            }
+        }
+    }
+    // ET <-> TDB directly
+    for _ in 0..(if thorough { 4_000 } else { 200 }) {
+        let v = (rng.i128().rem_euclid(2 * span)) - span;
+        m.eload_dur(TimeScale::ET, ns_dur(v));
+        m.to_scale(TimeScale::TDB);
+        m.to_scale(TimeScale::ET);
+    }
+    // random
+    let n = if thorough { 40_000 } else { 1_500 };
+    for i in 0..n {
+        let dy = DYN[i % 2];
+        let src = UNIF[(i / 2) % 6];
+        let v = if rng.chance(1, 3) { elapsed_4digit(rng, dy) } else { (rng.i128().rem_euclid(2 * span)) - span };
+        if i % 3 == 0 {
+            m.eload_dur(dy, ns_dur(v));
+            m.to_scale(src);
+        } else {
+            m.eload_dur(src, ns_dur(v + 3_155_716_800i128 * NS_S as i128));
+            m.to_scale(dy);
+            if i % 3 == 1 {
+                m.to_scale(src);
+            }
+        }
+    }
+    // sorted sweeps: order preserved for instants more than 100 ns apart
+    for (j, c) in [0i128, span / 3, -span / 3, span - year, -span].iter().enumerate() {
+        for dy in DYN {
+            for dir in 0..2 {
+                m.rec.episode();
+                let mut x = *c;
+                let mut first = true;
+                for _ in 0..(if thorough { 300 } else { 40 }) {
+                    let (src, to) = if dir == 0 { (TimeScale::TAI, dy) } else { (dy, UNIF[j % 6]) };
+                    let e = Epoch::from_duration(ns_dur(x + if dir == 0 { 3_155_716_800i128 * NS_S as i128 } else { 0 }), src);
+                    let r = catch(|| e.to_time_scale(to));
+                    m.rec.ev("sweep_dyn", format!("\"first\":{},\"src\":{},\"to\":{},\"res\":{}", jbool(first), jepoch(e), ts_idx(to), jres_epoch(&r)), true);
+                    first = false;
+                    x += match rng.below(4) {
+                        0 => 101,
+                        1 => 150,
+                        2 => 1_000,
+                        _ => 1_000_000_007,
+                    };
+                }
+            }
+        }
+    }
+    let _ = (EXACT.len(), NS_DAY, DurGen::new(lm).raw.len(), EpGen::new(lm, false).lms.len());
+}
